@@ -143,6 +143,19 @@ Example C06_nonvacuous :
   dot_net (sem exA6) (sem exB6) <> 0%Z.
 Proof. split; vm_compute; congruence. Qed.
 
+(* non-vacuity of the premises of the statistics theorems: a concrete 2 x 2 tensor, numel = 4, mean = sum / 4 *)
+Definition ex_core6 (n : nat) : score RO := mkScore (K:=RO) 1 1 n (fun s _ _ => INR s + 1)%R.
+Example C06_statistics_nonvacuous :
+  let sh := [2; 2]%nat in let numel := (fun _ : list (score RO) => 4%R) in
+  let mean := (fun a : list (score RO) => (sumR sh (eval a) / 4)%R) in
+  okR sh [ex_core6 2; ex_core6 2] /\ (forall a, okR sh a -> (0 < numel a)%R) /\
+  (forall a, okR sh a -> mean a = (sumR sh (eval a) / numel a)%R) /\
+  (forall a b, okR sh a -> okR sh b -> numel a = numel b).
+Proof.
+  cbv zeta. split; [split; [split; [discriminate|reflexivity]|reflexivity]|].
+  split; [intros; lra|]. split; intros; reflexivity.
+Qed.
+
 Print Assumptions C06_dot.
 Print Assumptions C06_dot_partial.
 Print Assumptions C06_sum.
